@@ -47,26 +47,48 @@ def call(kind, which=0):
     raise ValueError(kind)
 
 
-def frame_lengths(kind):
-    """(request frame length, reply frame length) of the exchange, computed with the reference codec"""
+def exchange_lengths(kind):
+    """[(request frame length, reply frame length)] of the exchanges of one call, computed with the reference codec"""
     cl = build_cluster(cluster_spec())
+    ps = []
     if kind == "offsets":
-        p = kproto.encode_request("offsets", 0, 1, b"", {"replica_id": -1, "topics": [{"topic": T1, "partitions": [{"partition": 0, "time": -1, "max_offsets": 1}]}]})
+        ps.append(kproto.encode_request("offsets", 0, 1, b"", {"replica_id": -1, "topics": [{"topic": T1, "partitions": [{"partition": 0, "time": -1, "max_offsets": 1}]}]}))
     elif kind in ("produce1", "produce0"):
         ms = kproto.encode_message(0, b"k", b"v0")
-        p = kproto.encode_request("produce", 0, 1, b"", {"acks": 1 if kind == "produce1" else 0, "timeout": 1000,
-                                                         "topics": [{"topic": T1, "partitions": [{"partition": 0, "message_set": ms}]}]})
+        ps.append(kproto.encode_request("produce", 0, 1, b"", {"acks": 1 if kind == "produce1" else 0, "timeout": 1000,
+                                                               "topics": [{"topic": T1, "partitions": [{"partition": 0, "message_set": ms}]}]}))
     elif kind in ("commit", "commit_fresh"):
-        p = kproto.encode_request("offset_commit", 1, 1, b"", {"group": G, "generation_id": -1, "member_id": b"",
-                                                                "topics": [{"topic": T1, "partitions": [{"partition": 0, "offset": 4, "timestamp": -1, "metadata": b""}]}]})
+        if kind == "commit_fresh":
+            ps.append(kproto.encode_request("group_coordinator", 0, 1, b"", {"group": G}))
+        ps.append(kproto.encode_request("offset_commit", 1, 1, b"", {"group": G, "generation_id": -1, "member_id": b"",
+                                                                      "topics": [{"topic": T1, "partitions": [{"partition": 0, "offset": 4, "timestamp": -1, "metadata": b""}]}]}))
     else:
-        p = kproto.encode_request("metadata", 0, 1, b"", {"topics": [T1]})
-    reply = cl.handle(host(1), p)
-    return 4 + len(p), (4 + len(reply)) if reply is not None else 0
+        ps.append(kproto.encode_request("metadata", 0, 1, b"", {"topics": [T1]}))
+    out = []
+    for p in ps:
+        reply = cl.handle(host(1), p)
+        out.append((4 + len(p), (4 + len(reply)) if reply is not None else 0))
+    return out
+
+
+def frame_lengths(kind):
+    ls = exchange_lengths(kind)
+    return max(a for a, _ in ls), max(b for _, b in ls)
+
+
+def io_calls(kind, w=None, r=None):
+    """number of write/read calls of the call under uniform chunking"""
+    n = 0
+    for lreq, lrep in exchange_lengths(kind):
+        n += -(-lreq // w) if w else 1
+        if lrep:
+            n += (-(-4 // r) + -(-(lrep - 4) // r)) if r else 2
+    return n
 
 
 def make_case(rng, kind, plan, nfollow=None, follow=None, nb=None, which=0, tag=""):
     nb = nb or rng.choice([1, 1, 2])
+    faulty = tag in ("fault", "late_reply", "connect_fail")
     leader = rng.randint(1, nb)
     coord = leader if rng.random() < 0.6 else rng.randint(1, nb)
     spec = cluster_spec(nb, leader, coord)
@@ -84,6 +106,10 @@ def make_case(rng, kind, plan, nfollow=None, follow=None, nb=None, which=0, tag=
         follow = []
         for _ in range(nfollow if nfollow is not None else rng.randint(1, 2)):
             fk = rng.choice(["offsets", "offsets", "produce1", "produce0", "commit", "metadata"])
+            if fk == "commit" and kind not in ("commit", "commit_fresh") and (nb > 1 or faulty):
+                # a fresh lookup over several pooled connections (see the remark on commit_fresh above; on a connection that is out of
+                # step a foreign reply read as a coordinator answer names a garbage host, which adds a second pooled connection)
+                fk = "produce1"
             follow.append((fk, 1 if (fk == kind or fk == "offsets") and which == 0 else rng.randint(0, 1) if fk != "metadata" else 0))
     for fk, w in follow:
         ops.append({"op": call(fk, w), "plan": chunk_only if rng.random() < 0.5 else None})
@@ -107,10 +133,10 @@ def gen(rng, tier):
             cases.append(make_case(rng, kind, {"write_chunk": w}, tag="write_chunk"))
         for r in rs:
             cases.append(make_case(rng, kind, {"read_chunk": r}, tag="read_chunk"))
-        for _ in range(6 if quick else 60):
+        for _ in range(6 if quick else 300):
             cases.append(make_case(rng, kind, {"write_chunk": rng.randint(1, lreq), "read_chunk": rng.randint(1, max(1, lrep))}, tag="both_chunk"))
     # (b) random per-index splits
-    for _ in range(150 if quick else 2500):
+    for _ in range(150 if quick else 12000):
         kind = rng.choice(KINDS)
         n = rng.choice([4, 8, 16, 40])
         hi = rng.choice([1, 2, 5, 9, 30])
@@ -120,11 +146,11 @@ def gen(rng, tier):
     # (c) a fault at every I/O call index
     for kind in KINDS:
         lreq, lrep = frame_lengths(kind)
-        nex = 2 if kind == "commit_fresh" else 1
-        variants = [({}, (1 + (2 if lrep else 0)) * nex)]
-        w, r = lreq // 2 + 1, 3
-        variants.append(({"write_chunk": w, "read_chunk": r}, (2 + ((2 + -(-(lrep - 4) // r)) if lrep else 0)) * nex + 1))
-        for vi, (base, nio) in enumerate(variants):
+        variants = [{}, {"write_chunk": lreq // 2 + 1, "read_chunk": 3}]
+        if not quick:
+            variants += [{"write_chunk": 7, "read_chunk": 1}, {"write_chunk": 1, "read_chunk": 5}, {"write_chunk": lreq - 1}, {"read_chunk": max(1, lrep - 1)}]
+        for vi, base in enumerate(variants):
+            nio = io_calls(kind, base.get("write_chunk"), base.get("read_chunk"))
             for idx in range(nio + 1):
                 for wf, rf in FAULT_PAIRS:
                     if quick and vi == 1 and rng.random() < 0.6:
@@ -135,7 +161,8 @@ def gen(rng, tier):
     for kind in KINDS:
         if kind == "produce0":
             continue
-        for follow in ([("offsets", 1)], [("offsets", 1), ("offsets", 0)], [("produce1", 1)], [("commit", 1), ("offsets", 1)], [("metadata", 0)]):
+        for follow in ([("offsets", 1)], [("offsets", 1), ("offsets", 0)], [("produce1", 1)],
+                       [("commit" if kind in ("commit", "commit_fresh") else "produce1", 1), ("offsets", 1)], [("metadata", 0)]):
             ridx = 1 if kind != "commit_fresh" else rng.choice([1, 4])
             cases.append(make_case(rng, kind, {"read": {ridx: ["fail", "timeout"]}}, follow=follow, nb=1, tag="late_reply"))
     # (e) refused connects
@@ -320,6 +347,8 @@ def oracle(case, recs, cl):
             if clean and not refused and not cleared:
                 fails.append("C15: %s: every request was accepted and every reply read completely and without fault, yet the call failed: %s" %
                              (tag, dumps(res)[:80]))
+        if fails:
+            break        # the client's state after a violation (e.g. metadata taken from a foreign reply) is no basis for judging later calls
     return fails[:5]
 
 
